@@ -106,7 +106,7 @@ def gen_cases(seed, chunk, n, tier):
                             if block_dtypes(f) - {dtype}:
                                 orc = f"fuse(mode={mode}) of {dtype} data returned dtype {sorted(block_dtypes(f))}"
                                 break
-                            u = f.unfuse_all()
+                            u = f.unfuse(min(g))  # only the axis fused here (x may carry fused axes already)
                             if block_dtypes(u) - {dtype}:
                                 orc = f"unfuse of {dtype} data returned dtype {sorted(block_dtypes(u))}"
                                 break
